@@ -85,7 +85,7 @@ def main():
                      'enforced': [], 'unwind_bounds': {}, 'bounds': '', 'backend': ''}
             results[g['name']] = r
             nob = len(r['obligations'])
-            nfail = sum(1 for o in r['obligations'] if o['status'] != 'SUCCESS')
+            nfail = sum(1 for o in r['obligations'] if o['status'] == 'FAILURE')
             print('[%s] %-34s %-5s %s obligations=%d failed=%d canaries=%d/%d solver=%.1fs %s' % (
                 prop, g['name'], g['cls'], r['status'], nob, nfail,
                 sum(1 for c in r['canaries'] if c['status'] == 'FAILURE'), len(r['canaries']), r['solver_s'],
@@ -146,7 +146,10 @@ def main():
         cur_keys = {}
         for o in user_obl:
             cur_keys[okey(o)] = cur_keys.get(okey(o), 0) + 1
-        failed = [o for o in r['obligations'] if o['status'] != 'SUCCESS']
+        failed = [o for o in r['obligations'] if o['status'] == 'FAILURE']
+        unknown = [o for o in r['obligations'] if o['status'] not in ('SUCCESS', 'FAILURE')]
+        if unknown:
+            undecided.append('%s: %d obligations have status %s (solver error / out of memory): undecided' % (g['name'], len(unknown), unknown[0]['status']))
         if exp is not None and not a.record:
             # contract-level obligations recorded on the unchanged tree must still be generated
             must = [k for k in exp['keys'] if exp['keys'][k].get('must')]
@@ -183,7 +186,7 @@ def main():
             if o['cls'] in ('postcondition', 'assertion', 'loop_invariant_step', 'assigns', 'precondition') and len(samples) < 12 and \
                     not any(s['group'] == g['name'] and s['class'] == o['cls'] for s in samples):
                 samples.append({'group': g['name'], 'obligation': o['id'], 'class': o['cls'], 'description': o['desc'][:200], 'status': o['status']})
-        if a.record and not failed:
+        if a.record and not failed and not unknown:
             os.makedirs(os.path.dirname(ep), exist_ok=True)
             keys = {}
             for o in user_obl:
